@@ -2,6 +2,7 @@ package props
 
 import (
 	"fmt"
+	"github.com/ipld/go-ipld-prime/schema"
 	"os"
 	"os/exec"
 	"path/filepath"
@@ -26,7 +27,7 @@ func (c13) ID() string { return "C13" }
 func (c13) Plan(tier string) fw.Plan {
 	p := fw.Plan{
 		Batches: 8, Cases: c13drv.TypeSystemsPerBatch(tier), TimeoutSec: 1500, Level: "exploration",
-		Rule: "per batch: draw type systems inside the generator's feature set (scalars, link, struct map/tuple/stringjoin with optional/nullable/renames, typed maps incl. stringjoin keys and nullable values, lists, unions keyed/kinded/stringprefix), generate one Go package per type system with schema/gen/go FROM THE WORKING TREE into a scratch module outside /repo and /verif, and go build it together with a driver — a generation panic or a compile error is a violation (replay = the type system and the compiler output). The compiled driver rebuilds the same type systems, binds them with bindnode too, and for every input (30 (quick) / 80 (thorough) conforming values per type plus 8 random local mutations each, at type and representation level) compares both engines in lock-step: accept/reject, type-level read-out, representation read-out, dag-cbor and dag-json bytes; the generated engine is additionally checked against the reference with the C08 and C09 monitors. The scratch module is removed after each batch. Non-trivial: every driven value; distinct by (type system, type, value) hash.",
+		Rule:        "per batch: draw type systems inside the generator's feature set (scalars, link, struct map/tuple/stringjoin with optional/nullable/renames, typed maps incl. stringjoin keys and nullable values, lists, unions keyed/kinded/stringprefix), generate one Go package per type system with schema/gen/go FROM THE WORKING TREE into a scratch module outside /repo and /verif, and go build it together with a driver — a generation panic or a compile error is a violation (replay = the type system and the compiler output). The compiled driver rebuilds the same type systems, binds them with bindnode too, and for every input (30 (quick) / 80 (thorough) conforming values per type plus 8 random local mutations each, at type and representation level) compares both engines in lock-step: accept/reject, type-level read-out, representation read-out, dag-cbor and dag-json bytes; the generated engine is additionally checked against the reference with the C08 and C09 monitors. The scratch module is removed after each batch. Non-trivial: every driven value; distinct by (type system, type, value) hash.",
 		Assumptions: []string{"the Go compiler is the judge of 'compiles'", "reference model (lib/ref/schema) as in C08/C09"},
 		MinEvents:   []string{"packages_generated", "packages_compiled", "type_systems_driven", "types_driven", "lockstep_inputs", "lockstep_accepted_by_both", "lockstep_bytes_compared", "mutations_driven", "conformance_feeds", "view_readouts"},
 	}
@@ -75,10 +76,20 @@ func c13Batch(p *fw.Parent, b int) {
 		pkg := fmt.Sprintf("ts%d", i)
 		dir := filepath.Join(scratch, "gen", pkg)
 		os.MkdirAll(dir, 0o755)
+		// the generator's public adjunct configuration: memory layout per union type
+		adj := &gengo.AdjunctCfg{CfgUnionMemlayout: map[schema.TypeName]string{}}
+		ar := fw.NewRNG(fw.Mix(p.Seed, fw.HashString("C13-adjunct"), fw.HashString(p.Tier), uint64(b), uint64(i)))
+		for _, t := range ts.Types {
+			if t.Kind == "union" && ar.Bool() {
+				adj.CfgUnionMemlayout[t.Name] = "interface"
+				desc += "\n# union " + t.Name + " generated with memlayout \"interface\""
+				p.Count("unions_with_interface_memlayout", 1)
+			}
+		}
 		var genPanic any
 		func() {
 			defer func() { genPanic = recover() }()
-			gengo.Generate(dir, pkg, *lib, &gengo.AdjunctCfg{})
+			gengo.Generate(dir, pkg, *lib, adj)
 		}()
 		if genPanic != nil {
 			p.AddDeviation(fw.Deviation{Sig: "C13:generator-panics", Detail: fmt.Sprintf("schema/gen/go panicked on a type system within its feature set: %v\n%s", genPanic, desc), Batch: b, Index: i})
